@@ -26,7 +26,7 @@ def isParseZero : Val → Bool
 def isZeroD : DVal → Bool
   | .str s => s == ""
   | .int _ n => n == 0
-  | .flt _ f => f == .fin 0 0
+  | .flt _ f => f == .fin 0 0 || f == .nzero   -- reflect.Value.IsZero: `v.Float() == 0`, so -0 is zero too
   | .bool b => b == false
   | .time ns utc => ns == zeroTimeNs && utc
   | .slice xs => xs.isEmpty
